@@ -195,10 +195,10 @@ HELPERS = {}          # name/arity -> Fn of the unit-local helpers (set by the c
 _SUMMARY = {}
 
 
-def helper_summary(g):
+def helper_summary(g, assume_false=()):
     """facts about the 64-bit objects behind g's pointer / reference parameters that hold at every `return true` of g:
     {param index: set of fact kinds}"""
-    key = id(g)
+    key = (id(g), tuple(sorted(assume_false)))
     if key in _SUMMARY:
         return _SUMMARY[key]
     _SUMMARY[key] = {}
@@ -237,6 +237,13 @@ def helper_summary(g):
                 if tx is not None and tx["k"] == "binop" and tx["op"] == "&&":
                     stack += [tx["lhs"], tx["rhs"]]
                     continue
+                if tx is not None and tx["k"] == "binop" and tx["op"] == "||" and assume_false:
+                    # `flag || cond` with the bool parameter `flag` assumed false: the helper answers true only when cond holds
+                    sides = [tx["lhs"], tx["rhs"]]
+                    rest = [e_ for e_ in sides if not ((g.e(g.strip(e_)) or {}).get("k") == "ref" and (g.e(g.strip(e_)) or {}).get("did") in assume_false)]
+                    if len(rest) == 1:
+                        stack.append(rest[0])
+                        continue
                 st |= set(guard_facts(g, t_, True))
         here = {}
         for f in st:
@@ -562,7 +569,7 @@ def label_tainted(fn):
     return t
 
 
-def run_label_delta(chk, fns, rule="R-LABEL-DELTA-NARROW", floor=3):
+def run_label_delta(chk, fns, rule="R-LABEL-DELTA-NARROW", floor=3, helpers=None):
     chk.rule(rule, "a distance computed from a bound label's offset() (64 bits) reaches a narrower field only when it is known to fit: an explicit "
                    "cast to <= 32 bits of a label-derived 64-bit variable, and emit_value_le/be of one with a size that is not the constant 8, are "
                    "dominated by a range predicate over that variable (is_int_n / is_encodable_offset_* / constant comparison) on the passing "
@@ -570,6 +577,10 @@ def run_label_delta(chk, fns, rule="R-LABEL-DELTA-NARROW", floor=3):
                    "cast applied directly to the label arithmetic has no variable to test and is refused, masked or not: CodeHolder::bind_label() "
                    "accepts any 64-bit offset, so a bound label can be farther than 2^31 away")
     n = 0
+    if helpers is not None:
+        HELPERS.clear()
+        HELPERS.update(helpers)
+        _SUMMARY.clear()
     for fn in fns:
         taint = label_tainted(fn)
         wide_t = set()
@@ -581,6 +592,24 @@ def run_label_delta(chk, fns, rule="R-LABEL-DELTA-NARROW", floor=3):
             x = fn.e(atom)
             if x and x["k"] in ("call", "mcall") and x.get("cn") == "is_32bit" and holds:
                 return [("ranged", d) for d in taint]
+            if x and x["k"] == "call" and holds:
+                # a unit-local bool helper that is handed is_32bit() as a flag: either the flag is true (see above) or the helper
+                # answered true with the flag false
+                g = _callee_fn(fn, x)
+                if g is not None and g is not fn:
+                    flags = set()
+                    for pi, a in enumerate(x.get("args", [])):
+                        ax = fn.e(fn.strip(a))
+                        if ax is not None and ax["k"] in ("call", "mcall") and ax.get("cn") == "is_32bit" and pi < len(g.params):
+                            flags.add(g.params[pi]["did"])
+                    if flags:
+                        out = []
+                        for pi, kinds in helper_summary(g, assume_false=tuple(flags)).items():
+                            if pi < len(x["args"]) and "ranged" in kinds:
+                                w = _addr_of_wide(fn, x["args"][pi]) or wide_root(fn, x["args"][pi])
+                                if w is not None:
+                                    out.append(("ranged", w))
+                        return out
             return ()
 
         def state(i):
